@@ -650,6 +650,19 @@ pub fn build(env: &Env, w: &World, ins: &[Value], upto: usize, cleanup: bool) ->
             "DropNamedProofs" => b.drop_named_proofs(),
             "DropAuthZoneProofs" => b.drop_auth_zone_proofs(),
             "DropAuthZoneRegularProofs" => b.drop_auth_zone_regular_proofs(),
+            "DropAuthZoneSignatureProofs" => b.drop_auth_zone_signature_proofs(),
+            "AzProofOfAmount" => {
+                np += 1;
+                b.create_proof_from_auth_zone_of_amount(r.unwrap().addr, amt(r.unwrap()), format!("p{}", np))
+            }
+            "AzProofOfNF" => {
+                np += 1;
+                b.create_proof_from_auth_zone_of_non_fungibles(r.unwrap().addr, ids_of(w, r.unwrap(), &i["ids"]), format!("p{}", np))
+            }
+            "AzProofOfAll" => {
+                np += 1;
+                b.create_proof_from_auth_zone_of_all(r.unwrap().addr, format!("p{}", np))
+            }
             "AssertContains" => b.assert_worktop_contains(r.unwrap().addr, amt(r.unwrap())),
             "AssertAny" => b.assert_worktop_contains_any(r.unwrap().addr),
             "AssertNF" => b.assert_worktop_contains_non_fungibles(r.unwrap().addr, ids_of(w, r.unwrap(), &i["ids"])),
